@@ -316,9 +316,9 @@ def plan(prop, tier, seed, find):
     if prop == "C15":
         lim = _limits(tier)
         base = seed * 1000
-        fam = dict(n=3, b=3, d=2, setnext=1, long_arcs=1, depth_free=1, nsym=5)
-        fam4 = dict(n=4, b=2, d=2, setnext=1, long_arcs=1, depth_free=1, nsym=5)
-        nq = 4 if tier == "quick" else 16
+        fam = dict(n=3, b=3, d=2, setnext=1, long_arcs=1, depth_free=1, nsym=7)
+        fam4 = dict(n=4, b=3, d=2, setnext=1, long_arcs=1, depth_free=1, nsym=7)
+        nq = 10 if tier == "quick" else 32
         seeds = [(s, fam) for s in find(["lingering_root_child"], {k: v for k, v in fam.items() if k != "nsym"}, nq, base + 1)]
         seeds += [(s, fam4) for s in find(["arc_spanning_2"], {k: v for k, v in fam4.items() if k != "nsym"}, nq, base + 1)]
         seeds += [(base + 900 + k, fam) for k in range(nq // 2)]
